@@ -36,7 +36,10 @@ def model_terms(r):
 
 def emit(r, name):
     g, items, nullable, first = model_terms(r)
-    t = r.tables
+    return emit_raw(name, g, r.tables, items, nullable, first)
+
+
+def emit_raw(name, g, t, items, nullable, first):
 
     def sym(s):
         return "%s %d" % s
@@ -59,7 +62,8 @@ def emit(r, name):
             coq_list(["(%d)%%Z" % z for z in st["gotos"]])))
     prods = ["{| p_nt := %d; p_len := %d; p_act := %s |}" % (nt, ln, "true" if (i < len(t["has_act"]) and t["has_act"][i]) else "false")
              for i, (nt, ln) in enumerate(t["prods"])]
-    tb = "{| t_states := %s;\n  t_prods := %s;\n  t_err := %d |}" % (coq_list(rows), coq_list(prods), t["err"])
+    tb = "{| t_states := %s;\n  t_prods := %s;\n  t_err := %d; t_gate := %s |}" % (
+        coq_list(rows), coq_list(prods), t["err"], "true" if t.get("gate") else "false")
     an = "{| a_items := %s;\n  a_nullable := %s;\n  a_first := %s |}" % (
         coq_list([coq_list(["(%d,%d,%d)" % it for it in its]) for its in items]),
         coq_list(["true" if b else "false" for b in nullable]),
@@ -79,7 +83,7 @@ def check_batch(batch, checks, tag, timeout=900):
         f.write("From Coq Require Import List ZArith Bool.\nFrom Gocc Require Import LR.Parse LR.Validate LR.Complete%s.\n"
                 "Import ListNotations.\n" % "")
         for name, r in batch:
-            f.write(emit(r, name))
+            f.write(r if isinstance(r, str) else emit(r, name))
             for (label, tmpl) in checks:
                 expr = tmpl.format(n=name)
                 # each obligation is evaluated by the kernel; the result line is printed for the harness
